@@ -13,8 +13,9 @@ Everything is stated on the model (`Model/Ex.lean`, `Model/ExCmd.lean`), for all
    what a rejected filter may have changed.
 2. the closed shell of the harnesses (`builtinPipe`): `filter_builtin`, `filter_cat_identity`, `filter_tr_upper`,
    `filter_true_deletes`, `filter_unknown_deletes`, `filter_sed_first`, `filter_printf`.
-3. `ec_at_spec`, `ec_at_runs`, `ec_at_dispatch`, `at_runs_covered_line`: `[addr]@r` is typing the register's text as
-   a command line at the first addressed line.
+3. `ec_at_spec`, `ec_at_runs`, `ec_at_too_deep`, `ec_at_dispatch`, `at_runs_covered_line`: `[addr]@r` is typing the
+   register's text as a command line at the first addressed line, one level deeper in the count of executing
+   registers (`Ed.atDepth`, counted down again afterwards); with sixteen registers executing it returns 1 instead.
 4. `invalid_region_rejected_exec_at`, `ec_exec_guard_refuses`, `ec_exec_noexpand`, `ec_exec_invalid_region`.
 4b. `filter_splice`, `filter_invalid_region_rejected`: the same on the state *before* the command (the guard's bump is
    invisible to `ex_region` and `ex_pathexpand`: `Lemmas/C06cCongr.lean`); `cmd_splice_x`, `script_frame_x`: scripts
@@ -394,9 +395,12 @@ theorem ec_at_dispatch (f : Nat) (ed : Ed) (loc cmd arg : Bytes) (txt : Option B
     * register unset: return 1, the state is unchanged;
     * the address does not resolve to existing lines: return 1, only the address side effects happened
       (`AddrOnly`), the text is unchanged;
+    * sixteen registers are already executing (`atDepth ≥ 16`): return 1 with the message "register recursion too
+      deep", the text is unchanged, the register is not run;
     * otherwise the current line becomes the first addressed line `b` and the register's text is run as a command
-      line: the result is exactly `exCommand f { ed1 with xrow := b } buf` — executing a register is typing its
-      text at that line (`ed1` the state after the address evaluation, which differs from `ed` by `AddrOnly`).
+      line one level deeper: the result is that of `exCommand f { ed1 with xrow := b, atDepth := ed1.atDepth + 1 } buf`
+      with the depth counted down again — executing a register is typing its text at that line (`ed1` the state
+      after the address evaluation, which differs from `ed` by `AddrOnly`).
       For the `ra` variant the model only raises `unmodelled` and returns 1. -/
 theorem ec_at_spec (f : Nat) (ed ed' : Ed) (loc cmd arg : Bytes) (rc : Int)
     (h : ecAt (f + 1) ed loc cmd arg = some (rc, ed')) :
@@ -405,8 +409,12 @@ theorem ec_at_spec (f : Nat) (ed ed' : Ed) (loc cmd arg : Bytes) (rc : Int)
       ∃ r b e ed1, exRegion ed loc = some ((r, b, e), ed1) ∧ AddrOnly ed ed1 ∧
         (r ≠ 0 → rc = 1 ∧ ed' = ed1 ∧ lines ed' = lines ed) ∧
         (r = 0 → 0 ≤ b ∧ b ≤ e ∧ e ≤ ed.len ∧
-          (isRa cmd = true → rc = 1 ∧ ed' = { ed1 with xrow := b, unmodelled := true } ∧ lines ed' = lines ed) ∧
-          (isRa cmd = false → exCommand f { ed1 with xrow := b } buf = some (rc, ed')))) := by
+          (16 ≤ ed1.atDepth → rc = 1 ∧ ed' = ed1.show (strOf "register recursion too deep") ∧ lines ed' = lines ed) ∧
+          (ed1.atDepth < 16 →
+            (isRa cmd = true → rc = 1 ∧ ed' = { ed1 with xrow := b, unmodelled := true } ∧ lines ed' = lines ed) ∧
+            (isRa cmd = false → ∃ ed2,
+              exCommand f { ed1 with xrow := b, atDepth := ed1.atDepth + 1 } buf = some (rc, ed2) ∧
+              ed' = { ed2 with atDepth := ed2.atDepth - 1 })))) := by
   rw [ecAt] at h
   cases hreg : regGet ed (regName arg) with
   | none =>
@@ -437,45 +445,86 @@ theorem ec_at_spec (f : Nat) (ed ed' : Ed) (loc cmd arg : Bytes) (rc : Int)
         obtain ⟨v1, v2, v3, _⟩ := hv rfl
         simp only [bne_self_eq_false, Bool.false_eq_true, if_false] at h
         refine ⟨v1, v2, by rw [← ha.len]; exact v3, ?_, ?_⟩
-        · intro hra
-          unfold isRa at hra
-          rw [if_pos hra] at h
+        · intro hd
+          rw [if_pos hd] at h
           simp only [Option.some.injEq, Prod.mk.injEq] at h
           obtain ⟨rfl, rfl⟩ := h
           exact ⟨rfl, rfl, ha.lines⟩
-        · intro hra
-          unfold isRa at hra
-          rw [if_neg (by rw [hra]; simp)] at h
-          exact h
+        · intro hd
+          rw [if_neg (by omega)] at h
+          refine ⟨?_, ?_⟩
+          · intro hra
+            unfold isRa at hra
+            rw [if_pos hra] at h
+            simp only [Option.some.injEq, Prod.mk.injEq] at h
+            obtain ⟨rfl, rfl⟩ := h
+            exact ⟨rfl, rfl, ha.lines⟩
+          · intro hra
+            unfold isRa at hra
+            rw [if_neg (by rw [hra]; simp)] at h
+            cases hx : exCommand f { ed1 with xrow := b, atDepth := ed1.atDepth + 1 } buf with
+            | none => rw [hx] at h; cases h
+            | some y =>
+              obtain ⟨r2, ed2⟩ := y
+              rw [hx] at h
+              simp only [Option.some.injEq, Prod.mk.injEq] at h
+              obtain ⟨rfl, rfl⟩ := h
+              exact ⟨ed2, rfl, rfl⟩
 
-/-- the forward reading: a set register and a valid address make `@r` the run of the register's text -/
+/-- the forward reading: a set register, a valid address and fewer than sixteen registers executing make `@r` the
+    run of the register's text one level deeper (the depth is counted down again afterwards) -/
 theorem ec_at_runs (f : Nat) (ed ed1 : Ed) (loc cmd arg buf : Bytes) (b e : Int)
-    (hg : regGet ed (regName arg) = some buf) (hr : exRegion ed loc = some ((0, b, e), ed1)) (hra : isRa cmd = false) :
-    ecAt (f + 1) ed loc cmd arg = exCommand f { ed1 with xrow := b } buf := by
+    (hg : regGet ed (regName arg) = some buf) (hr : exRegion ed loc = some ((0, b, e), ed1)) (hra : isRa cmd = false)
+    (hd : ed1.atDepth < 16) :
+    ecAt (f + 1) ed loc cmd arg =
+      (exCommand f { ed1 with xrow := b, atDepth := ed1.atDepth + 1 } buf).map
+        (fun x => (x.1, { x.2 with atDepth := x.2.atDepth - 1 })) := by
   unfold isRa at hra
   rw [ecAt, hg]
   simp only [hr, bne_self_eq_false, Bool.false_eq_true, if_false]
-  rw [if_neg (by rw [hra]; simp)]
+  rw [if_neg (by omega), if_neg (by rw [hra]; simp)]
+  cases exCommand f { ed1 with xrow := b, atDepth := ed1.atDepth + 1 } buf with
+  | none => rfl
+  | some y => rfl
+
+/-- at the limit the register is not run -/
+theorem ec_at_too_deep (f : Nat) (ed ed1 : Ed) (loc cmd arg buf : Bytes) (b e : Int)
+    (hg : regGet ed (regName arg) = some buf) (hr : exRegion ed loc = some ((0, b, e), ed1))
+    (hd : 16 ≤ ed1.atDepth) :
+    ecAt (f + 1) ed loc cmd arg = some (1, ed1.show (strOf "register recursion too deep")) := by
+  rw [ecAt, hg]
+  simp only [hr, bne_self_eq_false, Bool.false_eq_true, if_false]
+  rw [if_pos hd]
 
 /-- **a register holding one covered line command** (`a i c d y pu k = p r` with a plain address and argument,
     `C06b.CoveredLine`; the register holds the bytes of the command without a trailing newline): `@r` performs
-    that command's splice, computed in the state where the current line is the first addressed line -/
+    that command's splice, computed in the state where the current line is the first addressed line (one level
+    deeper in the count of executing registers) -/
 theorem at_runs_covered_line (f : Nat) (ed ed1 ed' : Ed) (loc cmd arg : Bytes) (c : Cmd1) (b e : Int) (rc : Int)
     (hc : C06b.CoveredLine c) (hg : regGet ed (regName arg) = some c.bytes)
-    (hr : exRegion ed loc = some ((0, b, e), ed1)) (hra : isRa cmd = false)
+    (hr : exRegion ed loc = some ((0, b, e), ed1)) (hra : isRa cmd = false) (hd : ed1.atDepth < 16)
     (h : ecAt (f + 4) ed loc cmd arg = some (rc, ed')) :
-    let ed2 : Ed := { ed1 with xrow := b }
+    let ed2 : Ed := { ed1 with xrow := b, atDepth := ed1.atDepth + 1 }
     let s := C06b.spliceOf (C06b.lineCmd ed2 c).2 (C06b.lineCmd ed2 c).1 rc
     lines ed' = C06b.applySplice (lines ed) s ∧ s.1 ≤ s.2.1 ∧ s.2.1 ≤ (lines ed).length := by
   intro ed2 s
   have ha := (region_all _ _ _ _ _ _ hr).1
   have hl2 : lines ed2 = lines ed := ha.lines
-  rw [ec_at_runs (f + 3) ed ed1 loc cmd arg c.bytes b e hg hr hra] at h
-  have hrun : C06b.runLines f ed2 [c] = some ([s], ed') := by
+  rw [ec_at_runs (f + 3) ed ed1 loc cmd arg c.bytes b e hg hr hra hd] at h
+  cases hx : exCommand (f + 3) ed2 c.bytes with
+  | none => rw [show exCommand (f + 3) { ed1 with xrow := b, atDepth := ed1.atDepth + 1 } c.bytes = none from hx] at h; cases h
+  | some y =>
+  obtain ⟨rc2, ed3⟩ := y
+  rw [show exCommand (f + 3) { ed1 with xrow := b, atDepth := ed1.atDepth + 1 } c.bytes = some (rc2, ed3) from hx] at h
+  simp only [Option.map_some, Option.some.injEq, Prod.mk.injEq] at h
+  obtain ⟨rfl, rfl⟩ := h
+  have hl3 : lines ({ ed3 with atDepth := ed3.atDepth - 1 } : Ed) = lines ed3 := rfl
+  rw [hl3]
+  have hrun : C06b.runLines f ed2 [c] = some ([s], ed3) := by
     simp only [C06b.runLines]
-    rw [show exCommand (f + 3) ed2 c.bytes = some (rc, ed') from h]
+    rw [hx]
     rfl
-  obtain ⟨k1, _, k3⟩ := C06b.script_frame_lines f [c] ed2 ed' [s] (by intro x hx; simp at hx; subst hx; exact hc) hrun
+  obtain ⟨k1, _, k3⟩ := C06b.script_frame_lines f [c] ed2 ed3 [s] (by intro x hx; simp at hx; subst hx; exact hc) hrun
   rw [hl2] at k1 k3
   simp only [C06b.applySplices, List.foldl_cons, List.foldl_nil] at k1
   exact ⟨k1, k3.1, k3.2.1⟩
@@ -806,7 +855,7 @@ theorem ed4a_reg : regGet ed4a (regName [97]) = some cmd1d.bytes := by decide +k
 example : (runCmd 5 ed4a "ec_at" [] [64] [97] none).map (fun r => (r.1, lines r.2)) =
     some (0, [[98, 10], [99, 10], [100, 10]]) := by
   rw [ec_at_dispatch, ec_at_runs 3 ed4a ed4a [] [64] [97] cmd1d.bytes _ _ ed4a_reg
-      (C06b.region_noaddr ed4a (by decide) (by decide)) (by decide),
+      (C06b.region_noaddr ed4a (by decide) (by decide)) (by decide) (by decide),
     C06b.exCommand_line 1 _ cmd1d [100] "ec_delete" cmd1d_ok (by decide) (by decide) (by decide), runCmd]
   decide +kernel
 
@@ -831,7 +880,7 @@ theorem region_ed4a_3 : exRegion ed4a [51] = some ((0, 2, 3), ed4a) := by
 /-- `3@a`: the current line moves to line 3 first, then `1d` runs (and leaves the current line at 0) -/
 example : (runCmd 5 ed4a "ec_at" [51] [64] [97] none).map (fun r => (r.1, lines r.2, r.2.xrow)) =
     some (0, [[98, 10], [99, 10], [100, 10]], 0) := by
-  rw [ec_at_dispatch, ec_at_runs 3 ed4a ed4a [51] [64] [97] cmd1d.bytes _ _ ed4a_reg region_ed4a_3 (by decide),
+  rw [ec_at_dispatch, ec_at_runs 3 ed4a ed4a [51] [64] [97] cmd1d.bytes _ _ ed4a_reg region_ed4a_3 (by decide) (by decide),
     C06b.exCommand_line 1 _ cmd1d [100] "ec_delete" cmd1d_ok (by decide) (by decide) (by decide), runCmd]
   decide +kernel
 
